@@ -424,6 +424,8 @@ class Gen:
             st["floatPrec"] = r.choice([0, 3, 12])
         if r.random() < 0.2:
             st["errMarshal"] = "string"
+        if r.random() < 0.2:
+            st["levelMarshal"] = r.choice(["tag", "dropinfo"])
         needs_stack = bool(needs)
         if needs:
             st["stackMarshal"] = needs.pop()
